@@ -153,6 +153,8 @@ pub struct VfsState {
     pub fault_fired: Vec<String>,
     // capture
     capture: bool,
+    /// capture only while a request is executing (not during the harness's own state reads)
+    capture_paused: bool,
     capture_power: u32,
     capture_garbage: bool,
     capture_budget: usize,
@@ -192,6 +194,7 @@ pub fn begin_run(seed: u64, dir: Option<&Path>) {
         s.fault = None;
         s.fault_fired.clear();
         s.capture = false;
+        s.capture_paused = true;
         s.images.clear();
         s.capture_skipped = 0;
         s.cur_req = -1;
@@ -265,6 +268,14 @@ pub fn set_capture(on: bool, power_images: u32, garbage: bool, budget_bytes: usi
     });
 }
 
+pub fn pause_capture(p: bool) {
+    with(|s| s.capture_paused = p);
+}
+
+pub fn track(dir: &Path) {
+    with(|s| s.track_dir = Some(dir.to_path_buf()));
+}
+
 pub fn set_cur_req(r: i64) {
     with(|s| s.cur_req = r);
 }
@@ -284,6 +295,7 @@ pub fn capture_now(label: &str) {
             capture(s, label);
         }
     });
+    let _ = label;
 }
 
 pub fn wal_exists() -> bool {
@@ -442,7 +454,7 @@ fn pre_call(kind: CallKind, name: &'static str, what: &str) -> Option<c_int> {
         *s.calls.entry(name).or_insert(0) += 1;
         let mutating = matches!(kind, CallKind::Write | CallKind::Truncate | CallKind::Sync | CallKind::Delete);
         if mutating {
-            if s.capture {
+            if s.capture && !s.capture_paused {
                 capture(s, &format!("{name} {what}"));
             }
             s.mut_calls += 1;
